@@ -373,6 +373,7 @@ class Engine:
         self.types = {}          # term -> qualType (for atoms)
         self.npaths = 0
         self.record_loads = False
+        self.pure = set()            # callees shown elsewhere not to modify their arguments' objects
         self.clobber_origin = {}     # havoc atom -> location it stands for (value after a call that may have written it)
 
     # -- lookup ------------------------------------------------------------
@@ -1142,18 +1143,17 @@ class _Activation:
 
     # -- memory ------------------------------------------------------------------
     def read(self, st, key, node=None):
-        if self.e.record_loads and key[0] == 'i' and node is not None:
+        if self.e.record_loads and node is not None and (key[0] == 'i' or (key[0] == 'f' and key[1][0] in ('+', '-'))):
             e = Effect('load', key, (), node)
             e.inloop = st.loopdepth
             e.frame = self.prefix
             st.effects.append(e)
         if key in st.mem:
             return st.mem[key]
-        # field of a struct that was assigned as a whole
+        # field of a struct that was assigned as a whole (possibly an enclosing one)
         if key[0] == 'f' and key[1][0] == '&':
-            whole = key[1][1]
-            if whole in st.mem:
-                sv = st.mem[whole]
+            sv = self.struct_value(st, key[1][1])
+            if sv is not None:
                 return self.field_of(sv, key[2])
         for r in st.havoc_roots:
             if rooted_at(key, r) and key != r:
@@ -1164,6 +1164,15 @@ class _Activation:
                 return h
         return key
 
+    def struct_value(self, st, K):
+        if K in st.mem:
+            return st.mem[K]
+        if K[0] == 'f' and K[1][0] == '&':
+            parent = self.struct_value(st, K[1][1])
+            if parent is not None:
+                return self.field_of(parent, K[2])
+        return None
+
     def field_of(self, sv, field):
         if sv[0] in ('f', 'i', 'v'):
             return ('f', ('&', sv), field)       # field of an unmodified object: its own location term
@@ -1173,7 +1182,7 @@ class _Activation:
                     return v
             if sv[1] is None:
                 return C(0)
-            return ('fv', sv[1], field)
+            return self.field_of(sv[1], field)
         return ('fv', sv, field)
 
     def whole_struct(self, st, key):
@@ -1190,6 +1199,8 @@ class _Activation:
                 over.append((kk[2], v))
         if base is None and not over:
             return key
+        if base is not None and not over:
+            return base
         if base is not None and base[0] == 'struct':
             d = dict(base[2])
             d.update(dict(over))
@@ -1510,7 +1521,7 @@ class _Activation:
                 except Unsupported:
                     ef.extra = None
             s2.effects.append(ef)
-            if name not in PURE_FUNCTIONS:
+            if name not in PURE_FUNCTIONS and name not in self.e.pure:
                 for a, v in zip(argnodes, vals):
                     qt = cast.qual_type(a)
                     if '*' in qt or '[' in qt:
@@ -1664,4 +1675,6 @@ def unit_sizeofs(unit_rel, unit, variant=None):
                 vals.append(front.probe_values(unit_rel, [cdecl(t)], variant)[0])
             except front.FrontError:
                 vals.append(None)
-    return {t: v for t, v in zip(types, vals) if v is not None}
+    res = {t: v for t, v in zip(types, vals) if v is not None}
+    unit.sizeofs = res
+    return res
